@@ -594,6 +594,49 @@ func static() {
 		}()
 		<-done
 	})
+	sprobe("goexit-deferred-calls-functions-with-defers", func() {
+		done := make(chan bool)
+		helper := func(n Int) { defer t("h" + itoa(int64(n)) + "d"); t("h" + itoa(int64(n))) }
+		nested := func() { defer func() { helper(3); t("nested-d") }(); helper(2) }
+		recovering := func() { defer func() { t("rec=" + errClass(recover())) }(); panic("inside") }
+		go func() {
+			defer func() { t("last"); done <- true }()
+			defer func() {
+				t("A")
+				helper(1)
+				t("A1")
+				nested()
+				t("A2")
+				recovering()
+				t("A3")
+				for i := 0; i < 2; i++ {
+					func() { defer t("loop"); t("it") }()
+				}
+				t("A-end")
+			}()
+			func() {
+				defer helper(4)
+				defer func() { helper(5); t("B-end") }()
+				runtime.Goexit()
+			}()
+			t("not-reached")
+		}()
+		<-done
+	})
+	sprobe("goexit-from-deferred-function", func() {
+		done := make(chan bool)
+		helper := func() { defer t("hd"); t("h") }
+		go func() {
+			defer func() { t("outer"); helper(); t("outer-end"); done <- true }()
+			func() {
+				defer t("after-goexit-frame")
+				defer func() { t("calls-goexit"); helper(); runtime.Goexit() }()
+				t("body")
+			}()
+			t("not-reached")
+		}()
+		<-done
+	})
 	sprobe("panic-other-goroutine-recovered-there", func() {
 		done := make(chan string)
 		go func() {
